@@ -953,7 +953,7 @@ def p_C18(ctx):
         ctx.cases[n] = {"name": name, "text": text}
         base = os.path.join(tmp, str(n))
         open(base + ".in.csv", "w").write(text)
-        r1 = cli.run_proc(["-c", base + ".in.csv", "-l", "PENINSULA", "--arearef=50", "--kexp=0.5", "--oc", base + ".oc.csv", "--of", base + ".of.csv", "--json", base + ".j1"], tmp)
+        r1 = cli.run_proc(["-c", base + ".in.csv", "-l", "PENINSULA", "--arearef=50.25", "--kexp=0.25" if n % 2 else "--kexp=0.75", "--oc", base + ".oc.csv", "--of", base + ".of.csv", "--json", base + ".j1"], tmp)
         inp.append({"case": n, "tag": "orig", "json": base + ".j1", "exit": r1["exit"] if isinstance(r1["exit"], int) else -1})
         if r1["exit"] == 0:
             r2 = cli.run_proc(["-c", base + ".oc.csv", "-f", base + ".of.csv", "--json", base + ".j2"], tmp)
@@ -980,7 +980,7 @@ def p_C18(ctx):
     ctx.assumptions = ["values are compared at the printed precision: half a printed unit per value (2 decimals for energies, 3 for factors)",
                        "an auxiliary line carries no service in the text format: auxiliaries are compared by their per-system sums after re-normalisation",
                        "when rounding to two decimals makes the re-normalisation add or drop a completion of one printed unit, components are compared per tag tuple",
-                       "k_exp is saved with one decimal and the area with two: the CLI histories use such values", TRUST]
+                       "k_exp and the area are saved with two decimals (the precision of the reports): the CLI histories use such values (50.25 m2; 0.25 / 0.75)", TRUST]
     return ctx.finish("RoundTrip events: component and factor sets of lattice buildings (with comments and metadata), shipped files, random buildings with auxiliaries, the MC_Comp auxiliaries family and three-decimal values are written with the library's Display, tokenised, read back and evaluated again; the real program is run on shipped files, shapes and random buildings, saves with --oc --of and is run again on the saved files (results flattened from --json); TLC judges printed lines against TextFormat!PrintLine, the re-read sets and both evaluations")
 
 
